@@ -154,7 +154,7 @@ pub fn worker_main(engine: &dyn Engine, args: &[String]) -> i32 {
             }
         }
         if n < 2 && r.violation.is_none() {
-            samples.push(json!({"index": i, "seed": seed, "case": case, "log_tail": r.log.iter().rev().take(6).rev().collect::<Vec<_>>()}));
+            samples.push(abridge(&json!({"index": i, "seed": seed, "case": case, "log_tail": r.log.iter().rev().take(6).rev().collect::<Vec<_>>()})));
         }
         let flags = if r.violation.is_some() {
             "V"
@@ -198,6 +198,25 @@ pub fn worker_main(engine: &dyn Engine, args: &[String]) -> i32 {
     writeln!(out, "DONE").unwrap();
     out.flush().unwrap();
     0
+}
+
+/// samples in the evidence show what a case looks like; very long strings and lists are cut
+fn abridge(v: &Value) -> Value {
+    match v {
+        Value::String(s) if s.len() > 400 => {
+            let cut: String = s.chars().take(300).collect();
+            Value::String(format!("{}… [{} characters in all]", cut, s.chars().count()))
+        }
+        Value::Array(a) => {
+            let mut out: Vec<Value> = a.iter().take(40).map(abridge).collect();
+            if a.len() > 40 {
+                out.push(Value::String(format!("… [{} elements in all]", a.len())));
+            }
+            Value::Array(out)
+        }
+        Value::Object(o) => Value::Object(o.iter().map(|(k, x)| (k.clone(), abridge(x))).collect()),
+        other => other.clone(),
+    }
 }
 
 fn resident_mb() -> u64 {
